@@ -512,20 +512,23 @@ def xform (o : ColOracle) (src dst : Ty) : Option (Column → R Column) :=
   | .String, .EmailAddress => some stringToEmail
   | _, _ => none
 
-/-- the engine graph of a built typeset over pandas columns (state is unused by shipped relations) -/
+/-- the engine relation of one edge of a built typeset (state is unused by shipped relations) -/
+def mkRel (o : ColOracle) (e : Edge Ty) : Rel Ty Column Unit :=
+  if e.inferential then
+    { src := e.src, dst := e.dst, inferential := true,
+      guard := fun c s => match guard o e.src e.dst with
+        | some g => (g c).map (fun v => (v, s))
+        | none => .error .notImplemented,
+      xform := fun c s => match xform o e.src e.dst with
+        | some t => (t c).map (fun v => (v, s))
+        | none => .ok (c, s) }
+  else
+    { src := e.src, dst := e.dst, inferential := false,
+      guard := fun c s => (contains e.dst c).map (fun v => (v, s)),
+      xform := fun c s => .ok (c, s) }
+
+/-- the engine graph of a built typeset over pandas columns -/
 def graphOf (o : ColOracle) (b : Built Ty) : Graph Ty Column Unit :=
-  { succ := fun n => (b.edges.filter (fun e => e.src == n)).map (fun e =>
-      if e.inferential then
-        { src := e.src, dst := e.dst, inferential := true,
-          guard := fun c s => match guard o e.src e.dst with
-            | some g => (g c).map (fun v => (v, s))
-            | none => .error .notImplemented,
-          xform := fun c s => match xform o e.src e.dst with
-            | some t => (t c).map (fun v => (v, s))
-            | none => .ok (c, s) }
-      else
-        { src := e.src, dst := e.dst, inferential := false,
-          guard := fun c s => (contains e.dst c).map (fun v => (v, s)),
-          xform := fun c s => .ok (c, s) }) }
+  { succ := fun n => (b.edges.filter (fun e => e.src == n)).map (mkRel o) }
 
 end V.Pd
